@@ -32,6 +32,9 @@
 #include "harness.h"
 
 static sslKeys_t *cliKeys;
+/* The client application always uses this one suite, so the suite the
+   attacker selects is also the suite of the cached session */
+static const psCipher16_t suites[1] = { TLS_RSA_WITH_AES_128_GCM_SHA256 };
 
 static sslKeys_t *newServerKeys(int withTicketKeys)
 {
@@ -66,7 +69,7 @@ static void genuineConnection(sslKeys_t *srvKeys, sslSessionId_t *sid,
     copt.versionFlag = SSL_FLAGS_TLS_1_2;
     copt.ticketResumption = 1;
     CHECK(matrixSslNewServerSession(&srv, srvKeys, NULL, &sopt) >= 0, "srv");
-    CHECK(matrixSslNewClientSession(&cli, cliKeys, sid, NULL, 0,
+    CHECK(matrixSslNewClientSession(&cli, cliKeys, sid, suites, 1,
             strictCertCb, NULL, NULL, NULL, &copt) >= 0, "cli");
     memset(&cr, 0, sizeof(cr)); memset(&sr, 0, sizeof(sr));
     runHandshake(cli, srv, &cr, &sr);
@@ -100,13 +103,16 @@ int main(void)
     uint32 chLen, shLen, n, off;
     psSha256_t md;
     const char *evil = "INJECTED-BY-ATTACKER-WITHOUT-KEYS";
-    int i;
+    int i, lastAlertSent = -1;
 
     CHECK(matrixSslOpen() >= 0, "open");
     CHECK(matrixSslNewKeys(&cliKeys, NULL) >= 0, "cli keys");
     CHECK(matrixSslLoadRsaKeysMem(cliKeys, NULL, 0, NULL, 0,
             RSA2048CA, RSA2048CA_SIZE) >= 0, "cli CA");
     CHECK(matrixSslNewSessionId(&sid, NULL) >= 0, "sid");
+
+    /* control case: the honest version of what the attacker imitates */
+    controlResumption(cliKeys, SSL_FLAGS_TLS_1_2, "TLS 1.2 session ticket resumption");
 
     /* ---- step 1: genuine history of the client's sslSessionId_t --------- */
     srvKeys = newServerKeys(0);
@@ -128,7 +134,7 @@ int main(void)
     memset(&copt, 0, sizeof(copt));
     copt.versionFlag = SSL_FLAGS_TLS_1_2;
     copt.ticketResumption = 1;
-    CHECK(matrixSslNewClientSession(&cli, cliKeys, sid, NULL, 0,
+    CHECK(matrixSslNewClientSession(&cli, cliKeys, sid, suites, 1,
             strictCertCb, NULL, NULL, NULL, &copt) >= 0, "cli 2");
     memset(&cap, 0, sizeof(cap));
     pump(cli, NULL, NULL, &cap);
@@ -184,6 +190,7 @@ int main(void)
         !!(cli->flags & SSL_FLAGS_READ_SECURE));
     memset(&cap, 0, sizeof(cap));
     pump(cli, NULL, NULL, &cap);
+    if (cap.len >= 7 && cap.b[0] == 21) lastAlertSent = cap.b[6];
     hexdump("        client output", cap.b, cap.len);
     printf("        matrixSslHandshakeIsComplete(client)=%d\n",
         (int) matrixSslHandshakeIsComplete(cli));
@@ -211,6 +218,7 @@ int main(void)
         }
         return 1;
     }
-    printf("no violation observed\n");
+    printf("OK: the client refused the attacker's handshake (alert %d sent),"
+        " nothing was reported as application data\n", lastAlertSent);
     return 0;
 }
